@@ -211,3 +211,8 @@ Definition zero_recs (u : Z) : list (rec (option Z) Z) :=
   :: map (fun k => {| q_utc := (60 * Z.of_nat k)%Z; q_w := Some 50%Z; q_obs := Some 7%Z |}) (seq 1 23).
 Definition zero_stage_witness (zp : zero_policy) (recs : list (rec (option Z) Z)) : frame Z Z :=
   public_stage (Z.eqb 0) None temp_empty one_day_calendar fill_zero (fun l => l) zp true KeepFirst recs.
+
+(* stream iz: the zone of the index of HourlyCaltrackReportingData.from_series (0 = UTC, 1 = the meter's zone, 2 = a third zone) *)
+Definition zonepol_of_z (n : Z) : zone_policy := if Z.eqb n 0 then UnionToUtc else WeatherClock.
+Definition check_iz (c : Z * option Z * Z * Z) : bool :=
+  let '(p, mz, wz, expected) := c in Z.eqb (index_zone (zonepol_of_z p) mz wz) expected.
